@@ -71,26 +71,39 @@ def atom_table_deductive(rep):
     probs = []
     for q, fn in mod.functions.items():
         for n in core.walk_own(fn):
-            if isinstance(n, ast.Attribute) and n.attr == '_atom_store':
-                if q == 'YP.atom':
-                    continue
-                ok = q in ('YP.__init__', 'YP.clear') and isinstance(n.ctx, ast.Store)
-                if ok:
-                    continue
-                probs.append('%s line %d: %s' % (q, n.lineno, ast.unparse(n)))
+            if isinstance(n, ast.Attribute) and n.attr == '_atom_store' and not isinstance(n.ctx, ast.Store) and q != 'YP.atom':
+                probs.append('%s line %d: %s is used outside atom()' % (q, n.lineno, ast.unparse(n)))
             if isinstance(n, ast.Constant) and n.value == '_atom_store':
                 probs.append('%s line %d: the attribute name as a string' % (q, n.lineno))
             if isinstance(n, ast.Attribute) and n.attr == '__dict__':
                 probs.append('%s line %d: __dict__' % (q, n.lineno))
+            if isinstance(n, (ast.Assign, ast.AugAssign, ast.AnnAssign)):
+                tg = n.targets if isinstance(n, ast.Assign) else [n.target]
+                if any(isinstance(t, ast.Attribute) and t.attr == '_atom_store' for x in tg for t in ast.walk(x)):
+                    v = n.value
+                    empty = (isinstance(v, ast.Dict) and not v.keys) or (isinstance(v, ast.Call) and ast.unparse(v) == 'dict()')
+                    if not (isinstance(n, ast.Assign) and len(tg) == 1 and ast.unparse(tg[0]) == 'self._atom_store' and empty and q.startswith('YP.')):
+                        probs.append('%s line %d: the atom table is set to something else than an empty dict: %s' % (q, n.lineno, ast.unparse(n)[:60]))
+
+    def flat(fn, depth=0):
+        """top-level statements of a method with calls `self.m()` of argument-less helper methods of YP expanded in place"""
+        out = []
+        for s_ in core.strip_doc(fn.body):
+            c = s_.value if isinstance(s_, ast.Expr) and isinstance(s_.value, ast.Call) else None
+            if c is not None and isinstance(c.func, ast.Attribute) and ast.unparse(c.func.value) == 'self' and not c.args and not c.keywords \
+                    and depth < 3 and ('YP.' + c.func.attr) in mod.functions and c.func.attr != 'atom':
+                out.extend(flat(mod.functions['YP.' + c.func.attr], depth + 1))
+            else:
+                out.append(s_)
+        return out
     for q in ('YP.__init__', 'YP.clear'):
         fn = mod.functions.get(q)
-        inits = [a for a in (core.walk_own(fn) if fn else []) if isinstance(a, ast.Assign)
-                 and any(isinstance(t, ast.Attribute) and t.attr == '_atom_store' for t in a.targets)]
-        if not inits or not all(isinstance(a.value, ast.Dict) and not a.value.keys and len(a.targets) == 1 for a in inits):
-            probs.append('%s does not install an empty dict display as the atom table' % q)
-        elif fn is not None:
-            # the table is installed before the first atom is made (ATOM_NIL = self.atom("[]"))
-            first_atom = min([n.lineno for n in core.walk_own(fn) if isinstance(n, ast.Call) and ast.unparse(n.func) == 'self.atom'] or [10 ** 9])
-            if min(a.lineno for a in inits) > first_atom:
-                probs.append('%s makes an atom before the table is installed' % q)
+        installed = False
+        for s_ in (flat(fn) if fn else []):
+            if any(isinstance(t, ast.Attribute) and t.attr == '_atom_store' and isinstance(t.ctx, ast.Store) for t in ast.walk(s_)):
+                installed = True
+            elif not installed and any(isinstance(n, ast.Call) and ast.unparse(n.func) == 'self.atom' for n in ast.walk(s_)):
+                probs.append('%s makes an atom before the table is installed (line %d)' % (q, s_.lineno))
+        if not installed:
+            probs.append('%s does not install an empty atom table' % q)
     rep.add_checked('engine.YP._atom_store.encapsulated', not probs, '; '.join(probs), 'ast', function='engine.YP.atom', witness=probs or None)
